@@ -478,8 +478,8 @@ func c17OpUniverse(pipeline string, small bool) []regOp {
 	targets := []string{"", b1, "u1", "u2", "nope", "*"}
 	names := []string{"u1", "u2", b1}
 	if !small {
-		targets = append(targets, bs[0].Name, "u3")
-		names = append(names, "u3")
+		targets = append(targets, bs[0].Name, "u3", "u4")
+		names = append(names, "u3", "u4")
 	}
 	var ops []regOp
 	for _, n := range names {
@@ -558,6 +558,21 @@ func c17Suite(r *Result, rng *rand.Rand, tier string) {
 		}
 		cases = append(cases, c17Case{Pipeline: p, SkipTx: rng.Intn(4) == 0, Ops: ops})
 	}
+	// structured dependency webs among up to five fresh names (c17_gen.go)
+	nchain := 6000
+	switch tier {
+	case "thorough":
+		nchain = 300000
+	case "search":
+		nchain = 60000
+	}
+	cases = append(cases, c17ChainCases(rng, nchain)...)
+	// probes: the witness of every listed finding is re-run on the real code in every run
+	probeAt := map[int]string{}
+	for _, w := range c17Witnesses() {
+		probeAt[len(cases)] = w.ID
+		cases = append(cases, w.Case)
+	}
 	// model first (cheap; tells which histories would not terminate)
 	leanOps := make([][]interface{}, len(cases))
 	for i, c := range cases {
@@ -584,7 +599,7 @@ func c17Suite(r *Result, rng *rand.Rand, tier string) {
 	for i := range cases {
 		if strings.Contains(string(outs[i]), "\"fuel\"") {
 			fuelSeen++
-			if fuelSeen > 40 {
+			if _, probe := probeAt[i]; fuelSeen > 40 && !probe {
 				skip[i] = true
 			}
 		}
@@ -664,6 +679,17 @@ func c17Suite(r *Result, rng *rand.Rand, tier string) {
 			}
 		}
 		// end-to-end oracle
+		if want, probe := probeAt[i]; probe {
+			v := c17Oracle(c, obs)
+			got := ""
+			if v != "" {
+				got = c17Classify(c, obs, v)
+			}
+			r.H("probe", fmt.Sprintf("%s reproduced=%v", want, got == want))
+			if got != want {
+				r.Note("probe of listed finding %s: witness now yields %q (%s)", want, got, v)
+			}
+		}
 		if v := c17Oracle(c, obs); v != "" {
 			id := c17Classify(c, obs, v)
 			if id != "" && listed(id) {
@@ -735,6 +761,78 @@ func c17Classify(c c17Case, obs c17Obs, v string) string {
 	}
 	if strings.Contains(v, "registered After(") && f16 {
 		return "F16-C17-before-overwrites-after-request"
+	}
+	// F20: a name N made a request Before(X)/After(X), was removed, and is registered again later: the
+	// back-link the first N left on X (`cs[idx].after = N` / `after.before = N`) survives the Remove and now
+	// acts as a request of X towards the new N that nobody made
+	if strings.Contains(v, "registered") {
+		requested := map[string]bool{} // names that left a back-link
+		removedAfterRequest := map[string]bool{}
+		for _, o := range c.Ops {
+			switch {
+			case o.Op == "remove":
+				if requested[o.Name] {
+					removedAfterRequest[o.Name] = true
+				}
+			default:
+				if removedAfterRequest[o.Name] && strings.Contains(v, fmt.Sprintf("%q", o.Name)) {
+					return "F20-C17-stale-backlink-after-remove"
+				}
+				if (o.Before != "" && o.Before != "*" && o.Before != o.Name) || (o.After != "" && o.After != "*" && o.After != o.Name) {
+					requested[o.Name] = true
+				}
+			}
+		}
+	}
+	// F19: one name is live with a Before("*") record AND an After("*") record (duplicate registration):
+	// the comparator of the sort.SliceStable pre-pass is not a strict weak order on such a table, every
+	// compile reshuffles the records, so an unrelated later call moves existing callbacks
+	if strings.Contains(v, "did not take the replaced") {
+		bs, as := map[string]bool{}, map[string]bool{}
+		for _, o := range c.Ops {
+			if o.Op == "remove" {
+				delete(bs, o.Name)
+				delete(as, o.Name)
+				continue
+			}
+			if o.Before == "*" {
+				bs[o.Name] = true
+			}
+			if o.After == "*" {
+				as[o.Name] = true
+			}
+		}
+		for n := range bs {
+			if as[n] {
+				return "F19-C17-duplicate-star-records-reshuffled"
+			}
+		}
+	}
+	// F18: the violated request is X's After("*") and X is named by another callback's After(X): the
+	// requester's visit recurses into X and places it before unconstrained callbacks that come later
+	for _, o := range c.Ops {
+		if o.Op != "remove" && o.After != "" && o.After != "*" && o.After != o.Name &&
+			strings.Contains(v, fmt.Sprintf("callback %q registered After(\"*\") runs before unconstrained", o.After)) {
+			return "F18-C17-star-callback-pulled-forward"
+		}
+	}
+	// F17: the violated request is a Before(X) and X is named by the Before(X) of two or more different
+	// callbacks: each visit overwrites the back-link `cs[idx].after = c.name`, only the last one is checked
+	{
+		req := map[string]map[string]bool{}
+		for _, o := range c.Ops {
+			if o.Op != "remove" && o.Before != "" && o.Before != "*" && o.Before != o.Name {
+				if req[o.Before] == nil {
+					req[o.Before] = map[string]bool{}
+				}
+				req[o.Before][o.Name] = true
+			}
+		}
+		for x, who := range req {
+			if len(who) >= 2 && strings.Contains(v, fmt.Sprintf("registered Before(%q) runs after it", x)) {
+				return "F17-C17-second-before-overwrites-backlink"
+			}
+		}
 	}
 	if strings.Contains(v, "registered") || strings.Contains(v, "built-in callback") {
 		if f15 {
